@@ -248,16 +248,35 @@ def rules(rep, m):
         a = [hx.canon(z) for z in kids(tc[0])[1:]]
         r4.instance("hold arms (%s)" % ", ".join(a))
         okh = a[0] == "cmb_process_current()" and a[1] == hd.params[0]["name"] and common.sigval(a[2]) == SIG["CMB_PROCESS_SUCCESS"]
-    rv = [hx.canon(kids(x)[0]) for x in walk(hd.body) if x["kind"] == "ReturnStmt"]
-    if not okh or rv != ["cmi_coroutine_yield(NULL)"]:
+    rv = []
+    YV = "cmi_coroutine_yield(NULL)"
+    for x in walk(hd.body):
+        if x["kind"] != "ReturnStmt" or not kids(x):
+            continue
+        v_ = hx.canon(kids(x)[0])
+        if v_ != YV:
+            # a constant returned where the resume value is known to equal it is the resume value
+            sv = common.sigval(v_)
+            for cd in inv.dominating_conditions(hx, hd, x):
+                mm = re.fullmatch(r"\(%s == (.+)\)" % re.escape(YV), cd) or re.fullmatch(r"\((.+) == %s\)" % re.escape(YV), cd)
+                if mm and sv is not None and common.sigval(mm.group(1)) == sv:
+                    v_ = YV
+        rv.append(v_)
+    rv = sorted(set(rv))
+    if not okh or rv != [YV]:
         rep.finding(r4, hd.name, "hold", "hold does not arm (current process, duration, success) and return the resume value "
                     "(%s)" % rv, where=m.rel(hd.where))
         r4.fail()
     else:
         r4.ok()
     cc = [c for c in walk(hd.body) if c["kind"] == "CallExpr" and callee_ref(c) == "cmb_process_timer_cancel"]
+    def not_success(cd):
+        pos = re.fullmatch(r"\(%s != (.+)\)" % re.escape(YV), cd)
+        neg = re.fullmatch(r"!\(%s == (.+)\)" % re.escape(YV), cd)
+        mm = pos or neg
+        return bool(mm) and common.sigval(mm.group(1)) == SIG["CMB_PROCESS_SUCCESS"]
     okc = len(cc) == 1 and hx.canon(kids(cc[0])[2]).startswith("cmb_process_timer_add(") and \
-        any(x["kind"] == "IfStmt" and "!=" in hx.canon(kids(x)[0]) for x in inv.enclosing_chain(hd, cc[0]))
+        any(not_success(cd) for cd in inv.dominating_conditions(hx, hd, cc[0]))
     if not okc:
         rep.finding(r4, hd.name, "hold:cancel-own", "on another signal hold does not cancel exactly the wake-up it armed",
                     where=m.rel(hd.where))
